@@ -88,6 +88,11 @@ type Hist struct {
 	BarrierArrived           atomic.Int32
 
 	baseSched int
+	// Livelock is set when the Scheduler Loop exceeded its exact iteration
+	// budget (or, in virtual time, the state-report budget) and was stopped.
+	Livelock atomic.Value // string
+	loopBudget atomic.Int64
+	reportBudget int64
 	LeakDump string // RT: non-empty when scheduler goroutines survived quiescence
 	Hang     string // RT: non-empty when the watchdog fired (stable all-blocked dump)
 }
@@ -132,6 +137,10 @@ func Run(c *Case, m Mode) *Hist {
 		h.Errs[j] = &jobErr{j}
 	}
 	seq := &seqCounter
+	h.loopBudget.Store(int64(3*J + 1064))
+	if m.ST {
+		h.reportBudget = int64(2000*J + 200000)
+	}
 
 	rootCtx, cancel := context.WithCancel(context.WithValue(context.Background(), ctxKey{}, "root"))
 	defer cancel()
@@ -366,7 +375,10 @@ func (e *recEmitter) Emit(s scheduler.State) {
 	h := (*Hist)(e)
 	r := Report{S: s, Submitted: h.submitted.Load(), SubmittedDeps: h.submittedDeps.Load(),
 		Inflight: h.inflight.Load(), AfterWait: h.afterWait.Load(), HookOngoing: int(h.hookOngoing.Load())}
-	h.NReports.Add(1)
+	if n := h.NReports.Add(1); h.reportBudget > 0 && n > h.reportBudget {
+		h.Livelock.Store(fmt.Sprintf("the Scheduler Loop emitted %d state reports in virtual time (budget %d): it keeps running although every job finished long ago", n, h.reportBudget))
+		runtime.Goexit() // stops the loop goroutine; its deferred calls release Wait
+	}
 	exec := s.Pending - s.Ready - s.Waiting
 	if s.Ready > 0 && exec > 0 {
 		h.NReportsBusy.Add(1)
